@@ -90,6 +90,11 @@ func (ex *Exec) EntryArgs(st *State, fn *ssa.Function, fc *contract.Func, cs *co
 			}
 		}
 		args = append(args, v)
+		if r, ok := ex.refOf(st, v); ok && r != NilRef {
+			ex.mu.Lock()
+			ex.entryRefs = append(ex.entryRefs, r)
+			ex.mu.Unlock()
+		}
 	}
 	return args
 }
@@ -164,9 +169,25 @@ func (ex *Exec) VerifyFunc(fn *ssa.Function, fc *contract.Func, cs *contract.Cas
 		}
 		nret++
 		post := ex.scopeFor(fn, o.St, entry, args, o.Ret)
-		for i, e := range enss {
-			g := ex.EvalBool(post, e)
-			ex.AddObl(o.St, "ensures", fmt.Sprintf("ensures#%d@%s", i+1, o.Pos), o.Pos, g)
+		if len(enss) > 8 {
+			// many post-conditions: one obligation per path for their conjunction; the runner
+			// splits it into its conjuncts when it is not discharged
+			var gs []string
+			for _, e := range enss {
+				gs = append(gs, ex.EvalBool(post, e))
+			}
+			ex.AddObl(o.St, "ensures", fmt.Sprintf("ensures#all@%s", o.Pos), o.Pos, smt.And(gs...))
+			if ex.mute == 0 {
+				ob := ex.Obls[len(ex.Obls)-1]
+				for i, g := range gs {
+					ob.Parts = append(ob.Parts, Part{Name: fmt.Sprintf("ensures#%d", i+1), Goal: g})
+				}
+			}
+		} else {
+			for i, e := range enss {
+				g := ex.EvalBool(post, e)
+				ex.AddObl(o.St, "ensures", fmt.Sprintf("ensures#%d@%s", i+1, o.Pos), o.Pos, g)
+			}
 		}
 		if fc != nil && (fc.HasAssigns || fc.Flags["pure"]) {
 			ex.frameObligations(o.St, entry, fn, fc, args, o.Pos)
